@@ -190,7 +190,7 @@ pub fn scenario(u: &Unit) -> String {
         // with a single service the service share is the whole
         let a_srv: Vec<&RenNrenCo2> = sorted_kv(b.we.a_by_srv.iter()).into_iter().map(|x| x.1).collect();
         if a_srv.len() == 1 {
-            let has_use = k(0.0).lt(b.used.epus_an);
+            let has_use = k(0.0).lt_(b.used.epus_an);
             ob(&format!("{}.we.a=sum_srv", cn), has_use.implies(b.we.a.ren.ident(a_srv[0].ren).and(b.we.a.nren.ident(a_srv[0].nren)).and(b.we.a.co2.ident(a_srv[0].co2))));
         }
     }
